@@ -325,6 +325,24 @@ func runC12(args []string) error {
 		phase("rich eval")
 		for _, j := range jobs {
 			for _, m := range j.Muts {
+				if m.RefErr == "" && m.Control && m.Obs.Class != "" {
+					// a well-typed control of the constant-subset dimension: not rejected by the static passes
+					sm.Evaluations++
+					sm.RefComparisons++
+					sm.ImplComparisons++
+					sm.count("rich:control-well-typed")
+					sm.count("rich:control-" + m.Key[:2])
+					distinct.add("rich", m.Key)
+					if m.Obs.Class != "compiled" {
+						region := ""
+						if kc, ok := known[m.Key]; ok && kc == "false-"+m.Obs.Class {
+							region = c12Region(m.Key)
+						}
+						cid := newID(map[string]any{"stream": "rich", "kind": "well-typed control", "key": m.Key, "line": m.Line, "yaegi": m.Obs, "source": m.Src})
+						sm.RefMismatches = append(sm.RefMismatches, refMismatch{ID: cid, Region: region, Input: map[string]any{"key": m.Key, "line": m.Line, "source": m.Src}, Impl: m.Obs, Ref: "go/types accepts", Note: "well-typed control rejected"})
+					}
+					continue
+				}
 				if m.RefErr == "" {
 					dropped++
 					sm.count("rich:dropped(go/types accepts or parse error)")
